@@ -304,6 +304,14 @@ func checkAndReplaceSequence(state *BuildState, target, dep *BuildTarget, ep, in
 	if !ok {
 		log.Fatalf("%v has no entry point %s", dep, ep)
 	}
+	if tool && !state.WillRunRemotely(target) {
+		// Tools aren't copied into the build directory, so like above this has to be where they really are.
+		abs, err := filepath.Abs(handleDir(dep.OutDir(), out, dir))
+		if err != nil {
+			log.Fatalf("Couldn't calculate relative path: %s", err)
+		}
+		return quote(abs)
+	}
 	return quote(fileDestination(target, dep, out, dir, outPrefix, test))
 }
 
